@@ -132,10 +132,69 @@ def runHistory (layout : Bool) (c : Cache) (ops : List Op) : String :=
   let a := ops.foldl (stepOp seqIds) ⟨c, [], [], false⟩
   joinWith " | " (if layout then a.ls.reverse else a.xs.reverse)
 
+/-! wrapper histories: `kw-x|kw-l <order> <history>`; order 1 = [SWA, causal], 2 = [causal, SWA] -/
+
+structure WAcc where
+  cs : List Cache
+  xs : List String
+  ls : List String
+  dead : Bool
+
+def wStepOp (seqIds : List Nat) (a : WAcc) (op : Op) : WAcc :=
+  if a.dead then a else
+  let absS := fun (c : Cache) => s!"abs={showKeys (absKeys c)}"
+  let fin := fun (cs : List Cache) (res : String) (details : List String) (fwdOk : Bool) =>
+    let xs := (cs.zip details).map (fun (c, d) => s!"{d};{absS c}")
+    { a with cs := cs, xs := (res ++ " # " ++ joinWith " # " xs) :: a.xs,
+             ls := joinWith " # " (cs.map (fun c => showLayout c seqIds fwdOk)) :: a.ls }
+  match op with
+  | .fwd toks =>
+    let b := toks.map (·.1)
+    match wStart a.cs b with
+    | (_, .panic) => { a with xs := "panic" :: a.xs, ls := "panic" :: a.ls, dead := true }
+    | (cs1, .full) => fin cs1 "F:err:full" (cs1.map (fun _ => "")) false
+    | (cs1, .ok) =>
+      let cs2 := wPut cs1 (toks.map (·.2))
+      let details := cs2.map (fun c2 => String.join (b.map (fun t => ":" ++ showKeys ((exposed c2 t).map (fun j =>
+        let cell := c2.cells.getD j Cell.empty
+        let row := c2.rows.getD j default
+        [cell.pos, (row.id : Int), row.shift])))))
+      fin cs2 "F:ok" details true
+  | .cp src dst len =>
+    let cs1 := wCopyPrefix a.cs src dst len
+    fin cs1 "C" (cs1.map (fun _ => "")) false
+  | .rm seq b e =>
+    let (cs1, r) := wRemove a.cs seq b e
+    let rs := match r with | .ok => "ok" | .shared => "err:shared" | .notsup => "err:notsup"
+    fin cs1 s!"R:{rs}" (cs1.map (fun _ => "")) false
+  | .q seq pos =>
+    fin a.cs s!"Q:{wCanResume a.cs seq pos}" (a.cs.map (fun _ => "")) false
+
+def pWHistory : TP (List Cache × List Op) := do
+  let order ← nat
+  let vbits ← nat
+  let w ← pWindow
+  let maxSeq ← nat; let capacity ← nat; let maxBatch ← nat
+  let cpad ← nat; let bpad ← nat
+  let hasShift ← nat
+  let _permV ← nat; let _maskF16 ← nat; let _maxNodes ← nat
+  let ops ← listOf pOp
+  let v : Variant := { fixDefrag := vbits % 2 = 1, fixResume := (vbits / 2) % 2 = 1, fixDiv := (vbits / 4) % 2 = 1 }
+  let swa := init v w maxSeq capacity maxBatch cpad bpad (hasShift != 0)
+  let full := init v none maxSeq capacity maxBatch cpad bpad (hasShift != 0)
+  pure (if order = 2 then [full, swa] else [swa, full], ops)
+
+def runWHistory (layout : Bool) (cs : List Cache) (ops : List Op) : String :=
+  let seqIds := sortNat ((ops.flatMap opSeqs).eraseDups)
+  let a := ops.foldl (wStepOp seqIds) ⟨cs, [], [], false⟩
+  joinWith " | " (if layout then a.ls.reverse else a.xs.reverse)
+
 def handle (toks : List String) : Option String :=
   match toks with
   | "kv-x" :: rest => runTP (do let (c, ops) ← pHistory; pure (runHistory false c ops)) rest
   | "kv-l" :: rest => runTP (do let (c, ops) ← pHistory; pure (runHistory true c ops)) rest
+  | "kw-x" :: rest => runTP (do let (cs, ops) ← pWHistory; pure (runWHistory false cs ops)) rest
+  | "kw-l" :: rest => runTP (do let (cs, ops) ← pWHistory; pure (runWHistory true cs ops)) rest
   | _ => none
 
 end Oracle.C06
